@@ -67,24 +67,29 @@ def atoiC (s : Bytes) : Int := toInt32 (strtolDec s)
 /-- `unsigned = atoi(s)` -/
 def atouC (s : Bytes) : Nat := (atoiC s % 4294967296).toNat
 
+/-- base detection of `strtoull(.., 0)`: `0x`/`0X` followed by a hex digit, a leading `0` (octal), decimal otherwise -/
+def basePrefix0 (s : Bytes) : Nat × Bytes :=
+  match s with
+  | 48 :: x :: d :: r => if (x == 120 || x == 88) && isDigitIn 16 d then (16, d :: r) else (8, s)
+  | 48 :: _ => (8, s)
+  | _ => (10, s)
+
 /-- the magnitude part of `strtoull(s, NULL, 0)` after blanks and sign: (unbounded value, digits consumed) -/
 def magnitude0 (s : Bytes) : Nat × Nat :=
-  let p : Nat × Bytes :=
-    match s with
-    | 48 :: x :: d :: r => if (x == 120 || x == 88) && isDigitIn 16 d then (16, d :: r) else (8, s)
-    | 48 :: _ => (8, s)
-    | _ => (10, s)
+  let p := basePrefix0 s
   let t := takeDigits p.1 p.2 0 0
   (t.1, t.2.1)
 
+/-- an optional sign: (negative?, rest) -/
+def splitSign (s : Bytes) : Bool × Bytes :=
+  match s with
+  | 45 :: r => (true, r)
+  | 43 :: r => (false, r)
+  | _ => (false, s)
+
 /-- glibc `strtoull(s, NULL, 0)` -/
 def strtoull0 (s : Bytes) : Nat :=
-  let s1 := s.dropWhile isSpace
-  let p : Bool × Bytes :=
-    match s1 with
-    | 45 :: r => (true, r)
-    | 43 :: r => (false, r)
-    | _ => (false, s1)
+  let p := splitSign (s.dropWhile isSpace)
   let m := magnitude0 p.2
   if m.2 = 0 then 0
   else if m.1 > ulongMax then ulongMax
@@ -290,6 +295,44 @@ def importDoc (be : Backend) (d : Doc) : Loaded :=
       match importEls [] d.els with
       | (true, l) => ⟨0, l, ref, []⟩
       | (false, l) => .fail l
+
+/-! ### the entries the round trip is stated for -/
+
+/-- the C types of `obj_depth` (int) and `obj_index` (unsigned) -/
+def KeyInRange (k : Key) : Prop := -2147483648 ≤ k.1 ∧ k.1 < 2147483648 ∧ k.2 < 4294967296
+
+/-- what hwloc_topology_diff_export_xml[buffer] can write and the importer reads back: OBJ_ATTR entries of the three
+    known sub-types without NULL strings (TOO_COMPLEX is refused with EINVAL, the rest is undefined behaviour) -/
+def Exportable : E → Prop
+  | .objAttr k (.size _ _) => KeyInRange k
+  | .objAttr k (.name (some _) (some _)) => KeyInRange k
+  | .objAttr k (.info _ _ _) => KeyInRange k
+  | _ => False
+
+/-- no NUL byte inside a string (C strings) -/
+def NulFree (b : Bytes) : Prop := ∀ c ∈ b, c ≠ 0
+
+def EntryNulFree : E → Prop
+  | .objAttr _ (.name (some o) (some n)) => NulFree o ∧ NulFree n
+  | .objAttr _ (.info nm o n) => NulFree nm ∧ NulFree o ∧ NulFree n
+  | _ => True
+
+/-! ### what the statements about arbitrary documents are phrased with -/
+
+/-- the entry one element contributes (`none`: rejected or silently ignored) -/
+def elEntry (el : Bytes × AttrL) : Option E := (importOne el.2).bind id
+
+/-- every entry the element loop has linked when hwloc__xml_import_diff is left (whatever the outcome) -/
+def linked (be : Backend) (d : Doc) : List E :=
+  match parse be d with
+  | none => []
+  | some d' =>
+    match rootLoop none d'.root with
+    | none => []
+    | some _ => (importEls [] d'.els).2
+
+/-- names over `[a-z_]`, NUL-free values: what the nolibxml scanner reads back byte for byte (Hw.Xml.scanAttrs_renderAttrs) -/
+def GoodAttrs (a : AttrL) : Prop := ∀ x ∈ a, (∀ c ∈ x.1, isAttrNameChar c = true) ∧ (∀ c ∈ x.2, c ≠ 0)
 
 /-! ### through the bytes of the start tags -/
 
